@@ -33,7 +33,8 @@ CONSTANTS Obj, NULL, ObjSeq,                  \* ObjSeq: the objects in a fixed 
           Depth, EXT                           \* depth bound; scaled "extended precision" threshold
 N == INSTANCE FxpN
 
-AllFmts == << [s |-> TRUE, w |-> 3, f |-> 1], [s |-> FALSE, w |-> 3, f |-> 0], [s |-> TRUE, w |-> 4, f |-> 2], [s |-> FALSE, w |-> 2, f |-> 2] >>
+AllFmts == << [s |-> TRUE, w |-> 3, f |-> 1], [s |-> FALSE, w |-> 3, f |-> 0], [s |-> TRUE, w |-> 4, f |-> 2], [s |-> FALSE, w |-> 2, f |-> 2],
+             [s |-> FALSE, w |-> 3, f |-> 1] >>
 Fmts == { AllFmts[i] : i \in FmtSel }
 AllRnd == <<"trunc", "around", "floor", "ceil">>
 Rnds == { AllRnd[i] : i \in RndSel }
@@ -41,7 +42,8 @@ AllOvf == <<"saturate", "wrap">>
 Ovfs == { AllOvf[i] : i \in OvfSel }
 \* inputs on the quarter-LSB grid of the format: k4 means the value k4 * 2^(-f-2)
 \*   1: one LSB (exact)   2: above the maximum and inexact   3: a tie (inexact)   4: below the minimum, inexact   5: the maximum (exact)
-AllGrid(t) == << 4, 4 * N!Hi(t) + 6, 2, 4 * N!Lo(t) - 5, 4 * N!Hi(t) >>
+\*   6: above the maximum, an exact multiple of the LSB      7: below the minimum, an exact multiple of the LSB
+AllGrid(t) == << 4, 4 * N!Hi(t) + 6, 2, 4 * N!Lo(t) - 5, 4 * N!Hi(t), 4 * (N!Hi(t) + 2), 4 * (N!Lo(t) - 1) >>
 Grid(t) == { AllGrid(t)[i] : i \in GridSel }
 Val(k4, t) == [m |-> k4, e |-> -t.f - 2]
 Q(k4, t, c) == N!Quantize(Val(k4, t), t, c.rnd, c.ovf)
@@ -153,6 +155,14 @@ DoBinOp(S, a) == LET ox == S.objs[a.x]  oy == S.objs[a.y]
                      qs == [j \in 1..n |-> N!ArithInto(a.op, At(ox, j), ox.fmt, At(oy, j), oy.fmt, tz, ox.cfg.rnd, ox.cfg.ovf)]
                      st == OrSt(FoldQ(qs), [o |-> FALSE, u |-> FALSE, i |-> ox.st.i \/ oy.st.i])
                  IN Put(Forget(S, a.z), a.z, [fmt |-> tz, codes |-> CodesOf(qs), cfg |-> ox.cfg, st |-> st])
+\* add(x, y, out=z) / x.config.op_out = z: the result is written into the EXISTING object z under z's modes (a write:
+\* sticky flags); the inaccuracy of the operands is inherited
+DoBinOpOut(S, a) == LET ox == S.objs[a.x]  oy == S.objs[a.y]  oz == S.objs[a.z]
+                        n == IF Len(ox.codes) >= Len(oy.codes) THEN Len(ox.codes) ELSE Len(oy.codes)
+                        At(ob, j) == IF Len(ob.codes) = 1 THEN ob.codes[1] ELSE ob.codes[j]
+                        qs == [j \in 1..n |-> N!ArithInto(a.op, At(ox, j), ox.fmt, At(oy, j), oy.fmt, oz.fmt, oz.cfg.rnd, oz.cfg.ovf)]
+                        S1 == Put(Unlink(S, a.z), a.z, [oz EXCEPT !.codes = CodesOf(qs)])
+                    IN SetSt(S1, a.z, OrSt(OrSt(oz.st, FoldQ(qs)), [o |-> FALSE, u |-> FALSE, i |-> ox.st.i \/ oy.st.i]))
 \* z = -x: a new object of the same sizes with a DEFAULT Config (named deviation: modes and flags are not inherited)
 DoNeg(S, a) == LET ox == S.objs[a.x]
                    qs == [j \in DOMAIN ox.codes |-> N!Quantize(N!ValueOf(-ox.codes[j], ox.fmt), ox.fmt, "trunc", "saturate")]
@@ -173,6 +183,7 @@ Step(S, a) == CASE a.act = "New" -> DoNew(S, a)           [] a.act = "Store" -> 
                 [] a.act = "Reset" -> DoReset(S, a)       [] a.act = "SetCfg" -> DoSetCfg(S, a)
                 [] a.act = "SetCfgBad" -> DoSetCfgBad(S, a)
                 [] a.act = "BinOp" -> DoBinOp(S, a)       [] a.act = "Neg" -> DoNeg(S, a)
+                [] a.act = "BinOpOut" -> DoBinOpOut(S, a)
                 [] a.act = "RShiftKeep" -> DoRShiftKeep(S, a) [] a.act = "Invert" -> DoInvert(S, a)
                 [] a.act = "Drop" -> DoDrop(S, a)
 \* callbacks a recorder registered on the written object sees during the step
@@ -212,6 +223,10 @@ Enabled(S) ==
      IF "SetCfgBad" \in Acts THEN { [act |-> "SetCfgBad", x |-> x, key |-> k] : x \in Live(S), k \in {"rnd", "ovf"} } ELSE {},
      IF "BinOp" \in Acts THEN { [act |-> "BinOp", z |-> z, op |-> op, x |-> x, y |-> y] : z \in { v \in Obj : Free(S, v) }, op \in {"add", "mul"},
           x \in Live(S), y \in Live(S) } ELSE {},
+     IF "BinOpOut" \in Acts THEN { r \in { [act |-> "BinOpOut", z |-> z, op |-> op, x |-> x, y |-> y] : z \in Live(S), op \in {"add", "mul"}, x \in Live(S), y \in Live(S) } :
+          /\ r.z # r.x /\ r.z # r.y
+          /\ (S.objs[r.z].fmt.s \/ ~(S.objs[r.x].fmt.s \/ S.objs[r.y].fmt.s))          \* a signed result cannot go into an unsigned out (the code raises)
+          /\ LenOf(S, r.z) = (IF LenOf(S, r.x) >= LenOf(S, r.y) THEN LenOf(S, r.x) ELSE LenOf(S, r.y)) } ELSE {},
      IF "Neg" \in Acts THEN { [act |-> "Neg", z |-> z, x |-> x] : z \in { v \in Obj : Free(S, v) }, x \in Live(S) } ELSE {},
      IF "RShiftKeep" \in Acts THEN { [act |-> "RShiftKeep", y |-> y, x |-> x] : y \in { z \in Obj : Free(S, z) }, x \in Live(S) } ELSE {},
      IF "Invert" \in Acts THEN { [act |-> "Invert", y |-> y, x |-> x] : y \in { z \in Obj : Free(S, z) }, x \in Live(S) } ELSE {},
@@ -244,6 +259,7 @@ NoSharedConfig == st.csh = {} /\ st.ssh = {}
 ViewsOnly == \A b \in st.mem : \A e1 \in b, e2 \in b : st.objs[e1[1]].codes[e1[2]] = st.objs[e2[1]].codes[e2[2]]
 \* C20 (behavioural): a step changes what OTHER objects show only through shared memory of an indexed write
 Target(l) == IF l.act \in {"New", "Store", "SetItem", "Resize", "Reset", "SetCfg", "SetCfgBad", "Assign", "Drop"} THEN l.x
+             ELSE IF l.act = "BinOpOut" THEN l.z
              ELSE IF l.act \in {"GetItem", "CtorLike", "Like", "LikeShallow", "CopyShallow", "DeepCopy", "RShiftKeep", "Invert"} THEN l.y
              ELSE IF l.act \in {"BinOp", "Neg"} THEN l.z ELSE NULL
 NonInterference == [][ \A p \in Obj : (p # Target(last') /\ st.objs[p] # NULL /\ st'.objs[p] # st.objs[p])
@@ -275,11 +291,14 @@ FlagIff == [][ last'.act \in {"Store", "SetItem"} =>
                  IN /\ st'.objs[x].st = OrSt(st.objs[x].st, FoldQ(qs))
                     /\ last'.cb = CbOf(FoldQ(qs)) ]_vars
 \* C04: results of arithmetic carry the inaccuracy flag whenever an operand carried it
-InaccPropagates == [][ last'.act = "BinOp" => ((st.objs[last'.x].st.i \/ st.objs[last'.y].st.i) => st'.objs[last'.z].st.i) ]_vars
+InaccPropagates == [][ last'.act \in {"BinOp", "BinOpOut"} => ((st.objs[last'.x].st.i \/ st.objs[last'.y].st.i) => st'.objs[last'.z].st.i) ]_vars
 \* C10/C20: deriving never changes the source
 SourceUnchanged == [][ last'.act \in {"CtorLike", "Like", "DeepCopy", "GetItem", "BinOp", "Neg", "RShiftKeep", "Invert"} =>
                          \A p \in Obj \ {Target(last')} : st'.objs[p] = st.objs[p] ]_vars
 \* export of behaviours for the replay harness: TLC evaluates invariants on every generated state, before duplicate
 \* detection, so this prints one behaviour per TRANSITION of the bounded model (a complete transition cover)
 EmitHist == hist = <<>> \/ PrintT(ToJson([k |-> "beh", h |-> hist]))
+\* for -simulate runs: print only behaviours that reached the full length (TLC also evaluates invariants on candidate
+\* successors it does not take; printing only at the last level keeps that to one fan-out per simulated trace)
+EmitFull == Len(hist) # Depth \/ PrintT(ToJson([k |-> "beh", h |-> hist]))
 =============================================================================
